@@ -21,6 +21,7 @@
 //       the rows' bounding box enlarged by 1/2 (the exposed x is round(ub - w/2), so the exposed
 //       centre differs from the float centre by at most 1/2: one rounding, derived not tuned);
 //       checked in integers: 2 minX - 1 <= 2 x + w <= 2 maxX + 1;
+//       (movable cells of zero area included: a share of the circuits has some);
 //     * every exposed / returned coordinate is not the float->int overflow sentinel and is below
 //       2^30 in magnitude;
 //     * no exception, no abort, no sanitizer report;
@@ -183,6 +184,21 @@ static void spreadCase(vh::Out &out, const std::string &id, vh::Rng &g, bool exa
         }
         if (cellsOf[i][j].size() >= 2) out.nontrivial(vh::hashStr(op.str() + "#" + std::to_string(nb)));
       }
+    {  // every cell, in a bin or not, lies in the extent of placementArea() on the axis
+      Rectangle pa = hp.placementArea();
+      float amin = axis == 0 ? pa.minX : pa.minY, amax = axis == 0 ? pa.maxX : pa.maxY;
+      std::vector<char> inBin(n, 0);
+      for (int i = 0; i < bx; ++i)
+        for (int j = 0; j < by; ++j)
+          for (int c : cellsOf[i][j]) inBin[c] = 1;
+      for (int c = 0; c < n; ++c) {
+        if (inBin[c]) continue;
+        out.count("spread_cells_in_no_bin");
+        if (!(res[c] >= amin && res[c] <= amax))
+          out.fail(id, std::string("spreadCoord") + (axis ? "Y" : "X") + ": cell " + std::to_string(c) + " (in no bin) got " + dyadic(res[c]) +
+                           " (mantissa exp2), outside the placement area", op.str());
+      }
+    }
     if (exact) {
       out.ops << op.str() << "\n";
       std::ostringstream im;
@@ -268,6 +284,7 @@ struct Case {
   vc::GenInfo info;
   std::string desc;
   int effort = 0;
+  int nZeroArea = 0;
 };
 
 static double uni(vh::Rng &g, double lo, double hi) { return lo + (hi - lo) * (g.range(0, 1 << 20) / (double)(1 << 20)); }
@@ -283,13 +300,14 @@ static bool inDomain(const Circuit &c, const vc::GenInfo &gi) {
   return mov;
 }
 
-static ColoquinteParameters genC06Params(vh::Rng &g, std::string &desc, int &effort) {
+static ColoquinteParameters genC06Params(vh::Rng &g, std::string &desc, int &effort, bool fullSteps) {
   effort = g.range(1, 9);
   ColoquinteParameters p(effort, (int)g.range(-1, 1000));
   auto &gp = p.global;
   bool knobs = g.chance(3, 4);  // otherwise: effort defaults except the step limit
   gp.maxNbSteps = g.range(1, 10);
   if (g.chance(1, 10)) gp.maxNbSteps = g.range(11, 30);
+  if (!knobs && fullSteps && g.chance(1, 3)) gp.maxNbSteps = 400;  // the library default, with the effort's own knobs
   if (knobs) {
     gp.nbInitialSteps = std::min<int>(g.range(0, 2), gp.maxNbSteps - 1);
     gp.nbStepsBeforeRoughLegalization = g.range(1, 3);
@@ -367,8 +385,27 @@ static Case genCase(uint64_t seed, long long k, bool bigger) {
     Circuit c = vc::genCircuit(g, o, &cs.info);
     if (inDomain(c, cs.info)) { cs.circ.reset(new Circuit(c)); break; }
   }
+  // a share of circuits gets movable cells of zero area (zero width or zero height); at least one
+  // movable cell of positive area remains (C06 domain)
+  if (g.chance(1, 4)) {
+    Circuit &c = *cs.circ;
+    std::vector<int> mov;
+    for (int i = 0; i < c.nbCells(); ++i)
+      if (!c.isFixed(i)) mov.push_back(i);
+    int nz = std::min<int>((int)mov.size() - 1, g.range(1, 2));
+    std::vector<int> w = c.cellWidth(), h = c.cellHeight();
+    for (int k = 0; k < nz; ++k) {
+      int idx = g.range(0, mov.size() - 1);
+      int z = mov[idx];
+      mov.erase(mov.begin() + idx);
+      if (g.chance(1, 2)) w[z] = 0; else h[z] = 0;
+      cs.nZeroArea++;
+    }
+    c.setCellWidth(w);
+    c.setCellHeight(h);
+  }
   std::string pd;
-  cs.params = genC06Params(g, pd, cs.effort);
+  cs.params = genC06Params(g, pd, cs.effort, bigger);
   cs.desc = pd;
   return cs;
 }
@@ -477,9 +514,61 @@ static void runPlacement(Case &cs, std::ostream &os) {
   os << "S " << nLB << " " << nUB << " " << nOther << " " << maxAbs << " " << moved << "\n";
 }
 
-static void oracleCase(vh::Out &out, uint64_t seed, long long k, bool bigger) {
-  Case cs = genCase(seed, k, bigger);
+// corpus/C06/*.circ : circuits in the vc::dumpCircuit text format (witnesses of repaired defects)
+static std::unique_ptr<Circuit> parseCircuit(const std::vector<std::string> &lines) {
+  struct CellL { int w, h, x, y, o, f, ob, p; };
+  std::vector<CellL> cells;
+  std::vector<Row> rows;
+  struct NetL { std::vector<int> c, x, y; };
+  std::vector<NetL> nets;
+  for (const std::string &ln : lines) {
+    std::istringstream is(ln);
+    std::string k;
+    if (!(is >> k)) continue;
+    if (k == "cell") { CellL c; is >> c.w >> c.h >> c.x >> c.y >> c.o >> c.f >> c.ob >> c.p; cells.push_back(c); }
+    else if (k == "row") { int a, b, c, d, o; is >> a >> b >> c >> d >> o; rows.emplace_back(a, b, c, d, (CellOrientation)o); }
+    else if (k == "net") {
+      long long m, e; int np; is >> m >> e >> np;
+      NetL n;
+      for (int i = 0; i < np; ++i) { int c, x, y; is >> c >> x >> y; n.c.push_back(c); n.x.push_back(x); n.y.push_back(y); }
+      nets.push_back(n);
+    }
+  }
+  int n = cells.size();
+  std::unique_ptr<Circuit> circ(new Circuit(n));
+  std::vector<int> w(n), h(n), xs(n), ys(n);
+  std::vector<bool> fx(n), ob(n);
+  std::vector<CellOrientation> orr(n);
+  std::vector<CellRowPolarity> pol(n);
+  for (int i = 0; i < n; ++i) {
+    w[i] = cells[i].w; h[i] = cells[i].h; xs[i] = cells[i].x; ys[i] = cells[i].y;
+    fx[i] = cells[i].f; ob[i] = cells[i].ob; orr[i] = (CellOrientation)cells[i].o; pol[i] = (CellRowPolarity)cells[i].p;
+  }
+  circ->setCellWidth(w); circ->setCellHeight(h); circ->setCellX(xs); circ->setCellY(ys);
+  circ->setCellIsFixed(fx); circ->setCellIsObstruction(ob); circ->setCellOrientation(orr); circ->setCellRowPolarity(pol);
+  circ->setRows(rows);
+  for (auto &nt : nets) circ->addNet(nt.c, nt.x, nt.y);
+  return circ;
+}
+
+static void oracleCase(vh::Out &out, uint64_t seed, long long k, bool bigger, const std::string &corpusFile = "") {
+  Case cs;
   std::string id = "e" + std::to_string(k);
+  if (corpusFile.empty()) cs = genCase(seed, k, bigger);
+  else {
+    cs.circ = parseCircuit(vh::readLines(corpusFile));
+    cs.params = ColoquinteParameters(3, 0);
+    cs.params.global.maxNbSteps = 10;
+    cs.effort = 3;
+    cs.desc = "corpus " + corpusFile.substr(corpusFile.find_last_of('/') + 1) + " effort=3 seed=0 steps=10 (defaults otherwise)";
+    cs.info.rowHeight = cs.circ->nbRows() ? cs.circ->rows()[0].height() : 0;
+    for (int i = 0; i < cs.circ->nbCells(); ++i) {
+      if (cs.circ->isFixed(i)) cs.info.nFixed++;
+      else { cs.info.nMovable++; if ((long long)cs.circ->cellWidth()[i] * cs.circ->cellHeight()[i] == 0) cs.nZeroArea++; }
+    }
+    id = "c" + std::to_string(k);
+    out.count("e2e_corpus");
+  }
   std::string input = "params: " + cs.desc + "\n" + vc::circuitString(*cs.circ);
   out.evaluations++;
   out.ops << "case " << id << "\n";
@@ -496,6 +585,7 @@ static void oracleCase(vh::Out &out, uint64_t seed, long long k, bool bigger) {
   out.count("e2e_rowheight_" + std::to_string(cs.info.rowHeight));
   out.count("e2e_movable_" + std::string(cs.info.nMovable <= 3 ? "1-3" : (cs.info.nMovable <= 8 ? "4-8" : "9+")));
   if (cs.info.nFixed) out.count("e2e_with_fixed");
+  if (cs.nZeroArea) out.count("e2e_with_zero_area_movable_cells");
   if (cs.info.utilisation > 1.0) out.count("e2e_overfull");
   if (st != "ok") {
     out.fail(id, "placeGlobal did not complete: " + st + " — " + diag.substr(0, 600), input);
@@ -572,6 +662,17 @@ int main(int argc, char **argv) {
     out.impl << "case " << id << "\n";
     out.evaluations++;
     gridCase(out, id, g);
+  }
+  // (b) corpus witnesses first
+  if (!a.corpus.empty()) {
+    static const char *files[] = {"all-rows-clipped-away.circ", "tall-cell-rows-5H.circ", "zero-width-movable-cell.circ"};
+    long long ci = 0;
+    for (const char *f : files) {
+      std::string path = a.corpus + "/" + f;
+      if (vh::readLines(path).empty()) { ++ci; continue; }
+      if (only < 0 || (onlyKind == "c" && only == ci)) oracleCase(out, a.seed, ci, false, path);
+      ++ci;
+    }
   }
   // (b)
   long long nb = a.thorough() ? 12000 : (a.search() ? 4000 : 1500);
